@@ -290,6 +290,9 @@ def equivalent(a, b, extra_rules=None) -> str:
         b = rewrite(b, extra_rules)
     if a == b:
         return Verdict.EQUAL
+    a, b = canon_minmax(a), canon_minmax(b)
+    if a == b:
+        return Verdict.EQUAL
     try:
         a2, b2 = canon_filled_arrays(a), canon_filled_arrays(b)
         if a2 != a or b2 != b:
@@ -325,6 +328,20 @@ def equivalent(a, b, extra_rules=None) -> str:
     except Exception:
         pass
     return Verdict.DIFFERENT
+
+
+def canon_minmax(t):
+    """np.min((a, b)) / np.max((a, b)) over a literal pair is the binary minimum / maximum (one spelling for both)."""
+    def fn(n):
+        f = fname(n)
+        if f in ("min", "max") and len(n.args) >= 1 and isinstance(n.args[0], sp.Tuple) and len(n.args[0].args) == 2 \
+                and all(x == NONE_T for x in n.args[1:]):
+            return op("minimum" if f == "min" else "maximum", *sorted(n.args[0].args, key=sp.default_sort_key))
+        return None
+    try:
+        return rewrite(t, fn)
+    except Exception:
+        return t
 
 
 def _numerically_nonzero(t) -> bool:
